@@ -4,12 +4,14 @@ import Gengo.Driver.JsonTag
 import Gengo.Driver.Tracker
 import Gengo.Driver.Namer
 import Gengo.Driver.Writer
+import Gengo.Driver.Exec
 open Gengo Gengo.Proto
 
 /-- state of the stateful components (one history at a time per component) -/
 structure DState where
   trk : Tracker.T := Tracker.new false []
   sw : Driver.Writer.St := {}
+  ex : Driver.Exec.St := {}
 
 def dispatch (s : DState) (f : List Str) : DState × Str :=
   match f with
@@ -20,6 +22,9 @@ def dispatch (s : DState) (f : List Str) : DState × Str :=
     else if c = str "trk" then
       let (t, o) := Driver.Tracker.handle s.trk rest
       ({ s with trk := t }, o)
+    else if c = str "ex" then
+      let (t, o) := Driver.Exec.handle s.ex rest
+      ({ s with ex := t }, o)
     else if c = str "sw" then
       let (t, o) := Driver.Writer.handle s.sw rest
       ({ s with sw := t }, o)
